@@ -39,6 +39,19 @@ def handle (op : String) (args res : List String) : Option Verdict :=
       | none, _, _, _, _ => .bad s!"unknown suite {cls}"
       | _, _, _, _, _ => .bad "malformed mt line"
     | _, _ => .bad "malformed mt line"
+  | "fftradix" => some <|
+    match args with
+    | [n] => match n.toNat? with
+      | some n =>
+        let m := kissRadices n
+        if res.map String.toNat? == m.map some then .ok
+        else .bad s!"kissfft stage radices for length {n}: impl={res} model={m}"
+      | none => .bad "malformed fftradix line"
+    | _ => .bad "malformed fftradix line"
+  | "dstlen" => some <|
+    match args, res with
+    | [n], [l] => if l.toNat? == n.toNat?.map (2 * ·) then .ok else .bad s!"DST({n}) uses an FFT of length {l}, the model says 2·N"
+    | _, _ => .bad "malformed dstlen line"
   | _ => none
 
 end GeoVerif.Corr.C14
